@@ -32,7 +32,13 @@ class DictAdapter(Adapter):
 
     @classmethod
     def items(cls, value, node):
-        if node is None or not isinstance(node, ast.Dict):
+        if (
+            node is None
+            or not isinstance(node, ast.Dict)
+            # `**other` in the display: the entries of the value do not correspond to nodes
+            or len(value) != len(node.keys)
+            or None in node.keys
+        ):
             return [Item(value=value, node=None) for value in value.values()]
 
         result = []
